@@ -3,6 +3,7 @@ package rules
 import (
 	"go/ast"
 	"go/token"
+	"go/types"
 	"strings"
 
 	"jsverif/internal/core"
@@ -56,125 +57,147 @@ func lenArith(c *core.Ctx, R, fnName string, endTopOK func(k int64) bool, endTop
 		return
 	}
 	pos := c.P.Pos(d.Decl.Pos())
-	// --- (end)
-	var endTopAssign, otherAssign *ast.AssignStmt
-	var endTopIf *ast.IfStmt
-	ast.Inspect(d.Decl.Body, func(n ast.Node) bool {
-		if ifs, ok := n.(*ast.IfStmt); ok && endTopIf == nil && strings.Contains(core.ExprStr(ifs.Cond), "EndTop") && strings.Contains(core.ExprStr(ifs.Cond), "==") {
-			endTopIf = ifs
-		}
-		return true
-	})
-	if endTopIf == nil {
-		c.Bad(R, "Length:endtop", pos, "the EndTop branch of Length", "undecided: no `if lex.Type() == lexeme.EndTop` found")
-		return
-	}
-	isLenAssign := func(n ast.Node) *ast.AssignStmt {
-		as, ok := n.(*ast.AssignStmt)
-		if ok && len(as.Lhs) == 1 && len(as.Rhs) == 1 && as.Tok == token.ASSIGN && core.ExprStr(as.Lhs[0]) == "length" {
-			return as
-		}
-		return nil
-	}
-	ast.Inspect(d.Decl.Body, func(n ast.Node) bool {
-		if n == nil {
-			return true
-		}
-		if as := isLenAssign(n); as != nil {
-			if as.Pos() >= endTopIf.Body.Pos() && as.End() <= endTopIf.Body.End() {
-				endTopAssign = as
-			} else if otherAssign == nil {
-				otherAssign = as
+	// the variable that is returned
+	lenVar := ""
+	for _, st := range d.Decl.Body.List {
+		if r, ok := st.(*ast.ReturnStmt); ok && len(r.Results) >= 1 {
+			if id, ok := r.Results[0].(*ast.Ident); ok {
+				lenVar = id.Name
 			}
 		}
-		return true
-	})
-	chk := func(key string, as *ast.AssignStmt, okK func(int64) bool, whatK string, why string) {
-		if as == nil {
-			c.Bad(R, key, pos, key, "undecided: no assignment `length = ...` found")
-			return
-		}
-		a, k, ok := linEnd(d.Pkg, as.Rhs[0])
+	}
+	// the lexeme loop (calls Next) and the trimming loop behind it
+	var lexLoop, trimLoop *ast.ForStmt
+	for _, st := range d.Decl.Body.List {
+		fs, ok := st.(*ast.ForStmt)
 		if !ok {
-			c.Bad(R, key, c.P.Pos(as.Pos()), "candidate length "+core.ExprStr(as.Rhs[0]), "undecided: not of the form End() + constant")
-			return
+			continue
 		}
-		c.Check(a == 1 && okK(k), R, key, c.P.Pos(as.Pos()), whatK, core.F("candidate length is %d*End()%+d: %s", a, k, why))
-	}
-	if endTopAssign == nil {
-		// no adjustment at EndTop: the length stays the end of the last lexeme (+1)
-		onlyLeaves := len(endTopIf.Body.List) >= 1
-		for _, st := range endTopIf.Body.List {
-			switch st.(type) {
-			case *ast.BranchStmt, *ast.ReturnStmt:
-			default:
-				onlyLeaves = false
-			}
-		}
-		c.Check(onlyLeaves, R, "Length:endtop", c.P.Pos(endTopIf.Pos()), "at the EndTop lexeme the length is left at the end of the last lexeme", "the EndTop branch neither assigns the length nor simply leaves the loop")
-	} else {
-		chk("Length:endtop", endTopAssign, endTopOK, endTopWhat, "the EndTop lexeme lies on the first trailing byte; any other offset cuts the last byte of a value directly followed by the trailer (`{}x`) or includes the trailer")
-	}
-	chk("Length:lexeme", otherAssign, func(k int64) bool { return k == 1 }, "candidate length = End()+1", "End() is the inclusive index of the lexeme's last byte, the length up to it is End()+1")
-	// --- (trim)
-	var trimIf *ast.IfStmt
-	var byteVar string
-	ast.Inspect(d.Decl.Body, func(n ast.Node) bool {
-		fs, ok := n.(*ast.ForStmt)
-		if !ok {
-			return true
-		}
-		for _, st := range fs.Body.List {
-			if as, ok := st.(*ast.AssignStmt); ok && len(as.Lhs) == 1 && len(as.Rhs) == 1 && strings.HasSuffix(core.ExprStr(as.Rhs[0]), ".Byte(length - 1)") {
-				byteVar = core.ExprStr(as.Lhs[0])
-			}
-			if ifs, ok := st.(*ast.IfStmt); ok && byteVar != "" && strings.Contains(core.ExprStr(ifs.Cond), byteVar) {
-				trimIf = ifs
-			}
-		}
-		return true
-	})
-	if trimIf == nil {
-		c.Bad(R, "Length:trim", pos, "the trailing-blank loop of Length", "undecided: no loop reading data.Byte(length - 1) with a condition on that byte")
-		return
-	}
-	hasBreak := func(n ast.Node) bool {
-		found := false
-		if n == nil {
-			return false
-		}
-		ast.Inspect(n, func(m ast.Node) bool {
-			if b, ok := m.(*ast.BranchStmt); ok && b.Tok == token.BREAK {
-				found = true
+		callsNext := false
+		ast.Inspect(fs.Body, func(n ast.Node) bool {
+			if call, ok := n.(*ast.CallExpr); ok && strings.HasSuffix(core.ExprStr(call.Fun), ".Next") {
+				callsNext = true
 			}
 			return true
 		})
-		return found
+		if callsNext && lexLoop == nil {
+			lexLoop = fs
+		} else if lexLoop != nil && trimLoop == nil {
+			trimLoop = fs
+		}
 	}
-	breakInThen := hasBreak(trimIf.Body)
-	breakInElse := trimIf.Else != nil && hasBreak(trimIf.Else)
-	if breakInThen == breakInElse {
-		c.Bad(R, "Length:trim", c.P.Pos(trimIf.Pos()), "the trailing-blank loop of Length", "undecided: cannot tell which branch leaves the loop")
+	if lenVar == "" || lexLoop == nil {
+		c.Bad(R, "Length:lexeme", pos, "the lexeme loop of Length", "undecided: no returned length variable or no loop calling Next()")
 		return
 	}
-	ev := newByteBodyEval(c, d.Pkg, byteVar)
+	lpk := c.P.Pkg("lexeme")
+	lexType := func(name string) int64 {
+		if lpk != nil {
+			if k, ok := lpk.Types.Scope().Lookup(name).(*types.Const); ok {
+				n, _ := constantInt64(k.Val())
+				return n
+			}
+		}
+		return -1
+	}
+	endTop, literalEnd := lexType("EndTop"), lexType("LiteralEnd")
+	// one iteration of the lexeme loop: the candidate length as a function of the lexeme's End()
+	iter := func(T, E int64) (int64, string) {
+		const L0 = 7
+		e := &miniEval{pk: d.Pkg, env: map[string]int64{lenVar: L0, "nil": 0}, ctx: c}
+		recvName := ""
+		if d.Decl.Recv != nil && len(d.Decl.Recv.List[0].Names) > 0 {
+			recvName = d.Decl.Recv.List[0].Names[0].Name
+		}
+		e.env[recvName+".dataSize"] = 1000
+		e.tuple = func(call *ast.CallExpr) ([]int64, bool) {
+			if strings.HasSuffix(core.ExprStr(call.Fun), ".Next") {
+				second := int64(1)
+				if t, ok := core.TypeOf(d.Pkg, call).(*types.Tuple); ok && t.Len() == 2 && core.IsErrorType(t.At(1).Type()) {
+					second = 0
+				}
+				return []int64{1, second}, true
+			}
+			return nil, false
+		}
+		e.hook = func(x ast.Expr) (int64, bool) {
+			switch y := x.(type) {
+			case *ast.Ident:
+				if y.Name == "nil" {
+					return 0, true
+				}
+			case *ast.CallExpr:
+				f := core.ExprStr(y.Fun)
+				switch {
+				case strings.HasSuffix(f, ".Type") && len(y.Args) == 0:
+					return T, true
+				case strings.HasSuffix(f, ".End") && len(y.Args) == 0:
+					return E, true
+				case strings.HasSuffix(f, "Errors.Is") || strings.HasSuffix(f, "errors.Is"):
+					return 0, true
+				}
+			}
+			return 0, false
+		}
+		e.run(lexLoop.Body.List)
+		return e.env[lenVar], e.unknown
+	}
+	lin := func(T int64) (a, k int64, changed bool, unknown string) {
+		v1, u1 := iter(T, 10)
+		v2, u2 := iter(T, 20)
+		if u1 != "" {
+			return 0, 0, false, u1
+		}
+		if u2 != "" {
+			return 0, 0, false, u2
+		}
+		if v1 == 7 && v2 == 7 {
+			return 0, 0, false, ""
+		}
+		a = (v2 - v1) / 10
+		return a, v1 - a*10, true, ""
+	}
+	if a, k, changed, unk := lin(endTop); unk != "" {
+		c.Bad(R, "Length:endtop", pos, "the EndTop branch of Length", "undecided: "+unk)
+	} else if !changed {
+		c.OKd(R, "Length:endtop", pos, "at the EndTop lexeme the length is left at the end of the last lexeme", "no assignment at EndTop")
+	} else {
+		c.Check(a == 1 && endTopOK(k), R, "Length:endtop", pos, endTopWhat, core.F("candidate length is %d*End()%+d: the EndTop lexeme lies on the first trailing byte; any other offset cuts the last byte of a value directly followed by the trailer (`{}x`) or includes the trailer", a, k))
+	}
+	if a, k, changed, unk := lin(literalEnd); unk != "" {
+		c.Bad(R, "Length:lexeme", pos, "candidate length after a lexeme", "undecided: "+unk)
+	} else {
+		c.Check(changed && a == 1 && k == 1, R, "Length:lexeme", pos, "candidate length = End()+1", core.F("candidate length is %d*End()%+d (changed: %v): End() is the inclusive index of the lexeme's last byte, the length up to it is End()+1", a, k, changed))
+	}
+	// --- (trim): the final loop drops exactly the four blank bytes
+	if trimLoop == nil {
+		c.Bad(R, "Length:trim", pos, "the trailing-blank loop of Length", "undecided: no loop behind the lexeme loop")
+		return
+	}
 	var wrong []string
 	for b := int64(0); b < 256; b++ {
-		v, ok := ev.boolExpr(trimIf.Cond, b)
-		if !ok {
-			c.Bad(R, "Length:trim", c.P.Pos(trimIf.Pos()), "the trailing-blank loop of Length", "undecided: condition "+core.ExprStr(trimIf.Cond)+" is not a predicate of the byte")
+		e := &miniEval{pk: d.Pkg, env: map[string]int64{lenVar: 5}, ctx: c}
+		e.hook = func(x ast.Expr) (int64, bool) {
+			if call, ok := x.(*ast.CallExpr); ok && strings.HasSuffix(core.ExprStr(call.Fun), ".Byte") && len(call.Args) == 1 {
+				if e.expr(call.Args[0]) == 4 {
+					return b, true
+				}
+				return 'x', true
+			}
+			return 0, false
+		}
+		e.run([]ast.Stmt{trimLoop})
+		if e.unknown != "" {
+			c.Bad(R, "Length:trim", c.P.Pos(trimLoop.Pos()), "the trailing-blank loop of Length", "undecided: "+e.unknown)
 			return
 		}
-		trimmed := v
-		if breakInThen {
-			trimmed = !v
-		}
 		want := b == ' ' || b == '\t' || b == '\n' || b == '\r'
-		if trimmed != want {
+		got := e.env[lenVar]
+		if (want && got != 4) || (!want && got != 5) {
 			wrong = append(wrong, core.F("%q", rune(b)))
 		}
 	}
-	c.Check(len(wrong) == 0, R, "Length:trim", c.P.Pos(trimIf.Pos()), "the final loop of Length drops exactly SP, TAB, LF, CR (256 bytes evaluated)", "Len() keeps trailing blanks or cuts into the value; bytes treated wrongly: "+strings.Join(wrong, " "))
+	c.Check(len(wrong) == 0, R, "Length:trim", c.P.Pos(trimLoop.Pos()), "the final loop of Length drops exactly SP, TAB, LF, CR (256 bytes evaluated)", "Len() keeps trailing blanks or cuts into the value; bytes treated wrongly: "+strings.Join(wrong, " "))
 }
 
 // rewindRule: Len() and Check() of a JSON document leave a fresh scanner behind.
